@@ -322,7 +322,7 @@ pub fn property() -> Property {
     Property {
         id: "C09",
         level: "exploration",
-        rule: "generated: Horn-style knowledge bases of 1-8 rules (5 when max_depth >= 5) built through the API: conditions are And/Or trees (depth <= 3) over `G.dK == literal` (derived fields, bool or string kind) and comparisons on base facts (numeric ordering, flag, string equality); every action assigns literals (canonical value, or a wrong value / a second side assignment in non-monotone KBs); chains, shared sub-goals, dead ends, wrong-value conclusions, cycles and redundant alternatives arise from random heads/bodies; initial stores of flat keys with some derived fields pre-asserted; atomic goals `field op literal`; strategy DFS/BFS/Iterative, max_depth 0..6, max_solutions 1 or 3, memoisation off. Oracles: (S1) if provable, REF evaluates the goal comparison to true on the facts handed back; (S2) if provable, some value in the possible-values closure (over-approximated forward closure) satisfies the goal; (C) part `complete`: monotone KBs (positive conjunctive conditions, one literal per field) under DFS: if the minimal derivation height (facts 0, rule application 1 + max premise) is <= max_depth the query must be provable. Non-trivial: goal false initially and the KB has a dead end / wrong-value rule / cycle / And of two derivable sub-goals, or completeness judged with height >= 2; distinct by (KB, store, goal, config). Engine panics/errors are counted and not judged.",
+        rule: "generated: Horn-style knowledge bases of 1-8 rules (5 when max_depth >= 5) built through the API: conditions are And/Or trees (depth <= 3) over `G.dK == literal` (derived fields, bool or string kind) and comparisons on base facts (numeric ordering, flag, string equality); every action assigns literals (canonical value, or a wrong value / a second side assignment in non-monotone KBs); chains, shared sub-goals, dead ends, wrong-value conclusions, cycles and redundant alternatives arise from random heads/bodies; initial stores of flat keys with some derived fields pre-asserted; atomic goals `field op literal`; strategy DFS/BFS/Iterative, max_depth 0..6, max_solutions 1 or 3, memoisation off. Oracles: (S1) if provable, REF evaluates the goal comparison to true on the facts handed back; (S2) if provable, some value in the possible-values closure (over-approximated forward closure) satisfies the goal; (C) part `complete`: monotone KBs (positive conjunctive conditions, one literal per field) under DFS: if the minimal derivation height (facts 0, rule application 1 + max premise) is <= max_depth the query must be provable. Non-trivial: goal false initially and the KB has a dead end / wrong-value rule / cycle / And of two derivable sub-goals, or completeness judged with height >= 2; distinct by (KB, store, goal, config). Engine panics/errors are counted and not judged. Part ladder: single-path derivations of 1..5 rules, every rule with exactly one derived premise (plus base premises that hold); a step either tests a field and assigns the NEXT of four string values to the same field, or moves on to a fresh field; 0..3 distractor rules whose base premise is false (never fire), rule order rotated, DFS, max_depth 0..7, max_solutions 1/3, memo on/off. Demand: height (= number of rules on the path) <= max_depth => provable, and provable => goal true in the facts handed back. Non-trivial there: height <= max_depth and at least one step raises the field it tests.",
         assumptions: vec!["REF (typed.rs) judges the goal comparison; numeric equality goals are not generated (the goal parser reads numbers as floats; REF calls int-vs-float equality undefined)".into()],
         parts: vec![
             Part { name: "sound", run, quick: Budget::Random { cases: 400_000, bytes: 300 }, thorough: Budget::Random { cases: 10_000_000, bytes: 300 }, min_nontrivial_pct: 30 },
